@@ -8,7 +8,9 @@
 (* items] [t |-> "explicit" | "implicit", tag |-> [c, n], item].                *)
 EXTENDS Bytes
 
-Len_(n) == IF n < 128 THEN <<n>> ELSE IF n < 256 THEN <<129, n>> ELSE <<130, n \div 256, n % 256>>
+Len_(n) == IF n < 128 THEN <<n>> ELSE IF n < 256 THEN <<129, n>> ELSE IF n < 65536 THEN <<130, n \div 256, n % 256>>
+           ELSE IF n < 16777216 THEN <<131, n \div 65536, (n \div 256) % 256, n % 256>>      \* contents of 64 KiB and more
+           ELSE <<132, n \div 16777216, (n \div 65536) % 256, (n \div 256) % 256, n % 256>>
 Tlv(tagBytes, c) == tagBytes \o Len_(Len(c)) \o c
 
 StripLead(v) == IF v[1] # 0 THEN v ELSE IF v[2] # 0 THEN Rest(v, 2) ELSE IF v[3] # 0 THEN Rest(v, 3) ELSE Rest(v, 4)
